@@ -2,6 +2,7 @@
 // Types shared by every layer.  The three enums Phase / RunUntil / Stop / GcColor are NOT written
 // here: they are cut from /repo/src/context.rs and /repo/src/types.rs on every run (the generator
 // re-emits the variant list verbatim and derives the PartialOrd spec from the declaration order).
+#![allow(non_snake_case)]
 use vstd::prelude::*;
 use vstd::std_specs::cmp::*;
 use core::cmp::Ordering;
